@@ -18,26 +18,28 @@ REQUIRED_THEOREMS = ["C16_state_dimension", "C16_F_closed_form", "C16_Q_closed_f
                      "C16_selector_matrix", "C16_selector_rejects_out_of_range", "C16_sensor_freeze", "C16_sensor_serving",
                      "C16_sensor_draws", "C16_trajectory", "C16_trajectory_recurrence", "C16_serving_state", "C16_serving",
                      "C16_reset_restarts", "C16_call_output", "C16_zero_length_has_no_state",
-                     "C16_grid_refusal", "C16_grid_positions", "C16_grid_spans", "C16_grid_weights", "C16_grid_overwrites"]
-RULE = ("corpus props/C16_corpus/*.case first, then cases drawn from one seeded stream; kinds: wna (Dim in {1,2,3}, T in [0.03,10], q in [0.01,100], seed, a script of 3-7 calls "
-        "among getNoiseSample(1..5), motion (1..4 columns), getTransitionProbability (1..6 pairs)); lti_state / lti_meas (all shape "
+                     "C16_grid_refusal", "C16_grid_positions", "C16_grid_spans", "C16_grid_weights", "C16_grid_overwrites",
+                     "C16_sensor_noise_cov", "C16_sensor_descriptions", "C16_factor_exists"]
+RULE = ("corpus props/C16_corpus/*.case first, then cases drawn from one seeded stream; kinds: wna (Dim in {1,2,3}, T in [0.001,10] i.e. cond(Q) up to ~1e7, q in [0.01,100], seed or the default-seed constructor, a script of 3-7 calls "
+        "among getNoiseSample(0..5), motion (0..4 columns), getTransitionProbability (0..6 pairs)); wna_stat / lin_stat (empirical moments of 1e4 .. 2e4 samples, motions and sensor residuals); lti_state / lti_meas (all shape "
         "classes: 0 x k, k x 0, non-square, mismatched, valid); linmodel (state size 0..6, 0..6 indices incl. out-of-range and repeated, "
         "R valid / empty / non-square / mismatched); sim (trajectory length 1..50, call sequences with calls past the end and resets); "
-        "sensor (same over a component-selecting sensor); grid (2..6 x 2..6, right and wrong particle counts, both constructors). "
+        "sensor (same over a component-selecting sensor); grid (2..6 x 2..6 and a few degenerate 1 x k, right and wrong particle counts, both constructors). "
         "non-trivial = every case except a valid-shape constructor call; distinct by (kind, Dim or shape class or outcome, size bucket)")
 TRUSTED_BASE = ["Coq 8.16.1 kernel (coqc); no axioms (Print Assumptions: closed under the global context)",
                 "MathComp 1.15 matrix theory",
                 "extraction (ExtrOcamlBasic only) and ocaml/float_ops.ml, ocaml/drv_C16.ml, ocaml/caseio.ml",
                 "ListOps list instance of MatOps (structural operations and Gauss-Jordan inverse/determinant, unproved)",
                 "cpp/h_C16.cpp harness incl. its mirror of std::mt19937_64(seed) + std::normal_distribution<double>(0,1) and the "
-                "observation of the private factor sqrt_Q_ as getNoiseSample(d) * Z^-1 on a twin instance",
-                "comparison tolerances: closed forms rtol 1e-12, samples / trajectories rtol 1e-9, densities 1e-10*cond(Q) on the log scale",
+                "observation of the private factor sqrt_Q_ as getNoiseSample(d) * Z^-1 on the instance under test (first call; probes with cond(Z) > 1e6 are rejected and counted)",
+                "comparison tolerances: closed forms rtol 1e-12, samples / trajectories rtol 1e-9, densities 1e-13*cond(Q) on the log scale (1e-11*cond(Q) against numpy), empirical moments %.1f sigma" % 5.5,
                 "correspondence is sampled: agreement is established on the generated cases only",
                 "IEEE rounding is not modelled (theorems over an exact real field); std::pow(T,3.0), std::pow(T,2.0) are transcribed as T*T*T, T*T"]
 ASSUMPTIONS = ["RNG: the draws of std::normal_distribution<double>(0,1) over std::mt19937_64(seed) are independent standard normal, "
                "E[Z Z^T] = I; the theorem C16_noise_cov is the algebraic identity L (Z Z^T) L^T = Q under Z Z^T = I, L L^T = Q",
-               "LDLT factor contract: sqrt_Q_ sqrt_Q_^T = Q_ and sqrt_R_ sqrt_R_^T = R_ for symmetric PSD input (premise of the theorems, "
-               "Q proved SPD for T, q > 0; checked at run time on every case on the factor observed on the implementation)",
+               "LDLT factor contract, local form: sqrt_Q_ sqrt_Q_^T = Q_ and sqrt_R_ sqrt_R_^T = R_ for the matrices at hand (premise of "
+               "C16_noise_cov / C16_sensor_noise_cov; Q proved SPD for T, q > 0; a factor proved to exist in every real closed field; "
+               "checked at run time on every case on the factor observed on the implementation)",
                "Eigen inverse()/determinant() behave as matrix inverse/determinant up to rounding (Gaussian density)",
                "WhiteNoiseAcceleration is used without an exogenous model and not skipping (the skip branches of LinearStateModel::propagate are C13's)",
                "InitSurveillanceAreaGrid::initialize is applied to a particle set with 4 state rows"]
